@@ -193,13 +193,13 @@ type vfc03Client struct {
 	failures atomic.Int64 // streams (or opens) of this client that ended with a non-EOF error
 }
 
-func (c *vfc03Client) LabelSets() []labels.Labels           { return c.Lsets }
-func (c *vfc03Client) TimeRange() (int64, int64)            { return c.MinT, c.MaxT }
-func (c *vfc03Client) TSDBInfos() []infopb.TSDBInfo         { return nil }
-func (c *vfc03Client) SupportsSharding() bool               { return c.Sharding }
-func (c *vfc03Client) SupportsWithoutReplicaLabels() bool   { return c.WithoutRepl }
-func (c *vfc03Client) String() string                       { return c.Name }
-func (c *vfc03Client) Addr() (string, bool)                 { return c.Name, c.Local }
+func (c *vfc03Client) LabelSets() []labels.Labels             { return c.Lsets }
+func (c *vfc03Client) TimeRange() (int64, int64)              { return c.MinT, c.MaxT }
+func (c *vfc03Client) TSDBInfos() []infopb.TSDBInfo           { return nil }
+func (c *vfc03Client) SupportsSharding() bool                 { return c.Sharding }
+func (c *vfc03Client) SupportsWithoutReplicaLabels() bool     { return c.WithoutRepl }
+func (c *vfc03Client) String() string                         { return c.Name }
+func (c *vfc03Client) Addr() (string, bool)                   { return c.Name, c.Local }
 func (c *vfc03Client) Matches(matches []*labels.Matcher) bool { return true }
 
 func (c *vfc03Client) LabelNames(context.Context, *storepb.LabelNamesRequest, ...grpc.CallOption) (*storepb.LabelNamesResponse, error) {
@@ -400,4 +400,3 @@ func vfc03Lset(a, k, z string) labels.Labels {
 	}
 	return labels.FromStrings(kv...)
 }
-
